@@ -15,4 +15,7 @@ PROP = {'gen_tables': [],
                  'multierr and os.File.Close behave as documented; open file descriptors are counted through /proc/self/fd',
                  'encoder constructors and sink factories are parameters (ok / error)',
                  'url.Parse lower-cases the scheme it read (resolveSink)'],
- 'technique': 'Lean 4 decision models (open / build / redirect / file-URL / scheme registry) with all-or-nothing theorems over all outcome vectors, tied by Corr'}
+ 'technique': 'Lean 4 decision models (open / build / redirect / file-URL / scheme registry) with all-or-nothing theorems over all outcome vectors, tied by Corr',
+ 'level_text': 'All-or-nothing is proved for every outcome vector / Build stage / redirection input of the model; URL and scheme decisions are iff-characterised; the real functions are driven with counting sinks, fd counting and real files.',
+ 'level_note': 'net/url parsing is trusted (the parsed record is handed to the model); Windows paths and sinks whose Close fails are out of scope.',
+}
